@@ -298,3 +298,155 @@ mod verif_kani2 {
         core::mem::forget(res);
     }
 }
+
+#[cfg(kani)]
+mod verif_kani3 {
+    use super::*;
+
+    // ---- C20: TypedDataBlob::verify_domain_type.  Callee contract of Types::type_definition (a HashMap lookup): records the
+    // name asked for and hands back the member list the harness prepared (the `missing type` branch is its own `?`).
+    static mut ASKED_DOMAIN: bool = false;
+    static mut ASKED: usize = 0;
+    static mut MEMBERS_PTR: *const Member = core::ptr::null();
+    static mut MEMBERS_LEN: usize = 0;
+    fn type_definition_contract<'a>(_this: &'a Types, kind: &'a str) -> Result<TypeDefinition<'a>> {
+        unsafe {
+            ASKED += 1;
+            ASKED_DOMAIN = kind.len() == 12 && kind.as_bytes() == b"EIP712Domain";
+            Ok(TypeDefinition { kind, members: core::slice::from_raw_parts(MEMBERS_PTR, MEMBERS_LEN) })
+        }
+    }
+
+    const STD: [&[u8]; 5] = [b"name", b"version", b"chainId", b"verifyingContract", b"salt"];
+
+    /// a member name: any ASCII string of 3, 4, 7 or 17 bytes (the lengths of the five standard names and one other)
+    fn any_name() -> (String, [u8; 17], usize) {
+        let buf: [u8; 17] = kani::any();
+        let sel: u8 = kani::any();
+        let len: usize = match sel & 3 {
+            0 => 3,
+            1 => 4,
+            2 => 7,
+            _ => 17,
+        };
+        let mut i = 0;
+        while i < 17 {
+            kani::assume(buf[i] < 0x80);
+            i += 1;
+        }
+        // SAFETY: all bytes are ASCII (assumed above)
+        let s = unsafe {
+            match len {
+                3 => String::from_utf8_unchecked(buf[..3].to_vec()),
+                4 => String::from_utf8_unchecked(buf[..4].to_vec()),
+                7 => String::from_utf8_unchecked(buf[..7].to_vec()),
+                _ => String::from_utf8_unchecked(buf[..17].to_vec()),
+            }
+        };
+        (s, buf, len)
+    }
+    /// a member type: any of the non-recursive kinds with any width, a struct reference, or an array
+    fn any_kind() -> (MemberKind, u8, u32) {
+        let sel: u8 = kani::any();
+        let n: u32 = kani::any();
+        let k = match sel % 10 {
+            0 => MemberKind::String,
+            1 => MemberKind::Uint(n),
+            2 => MemberKind::Int(n),
+            3 => MemberKind::Address,
+            4 => MemberKind::Bytes(Some(n)),
+            5 => MemberKind::Bytes(None),
+            6 => MemberKind::Bool,
+            7 => MemberKind::Struct(String::new()),
+            8 => MemberKind::Array(Box::new(MemberKind::String), None),
+            _ => MemberKind::Array(Box::new(MemberKind::Uint(n)), Some(n as usize)),
+        };
+        (k, sel % 10, n)
+    }
+    fn name_is(buf: &[u8; 17], len: usize, std: &[u8]) -> bool {
+        if len != std.len() {
+            return false;
+        }
+        let mut i = 0;
+        while i < std.len() {
+            if buf[i] != std[i] {
+                return false;
+            }
+            i += 1;
+        }
+        true
+    }
+
+    /// The rule of the property statement: a non-empty selection of name:string, version:string, chainId:uint256,
+    /// verifyingContract:address, salt:bytes32, each at most once, in that relative order, with exactly those types.
+    fn domain_at<const N: usize>() {
+        let mut members: Vec<Member> = Vec::with_capacity(N);
+        let mut spec_ok = N > 0;
+        let mut next = 0usize; // first standard position still allowed
+        let mut k = 0;
+        while k < N {
+            let (name, buf, len) = any_name();
+            let (kind, ksel, n) = any_kind();
+            let mut pos = 5;
+            let mut j = 0;
+            while j < 5 {
+                if name_is(&buf, len, STD[j]) {
+                    pos = j;
+                }
+                j += 1;
+            }
+            let std_type = match pos {
+                0 | 1 => ksel == 0,
+                2 => ksel == 1 && n == 256,
+                3 => ksel == 3,
+                4 => ksel == 4 && n == 32,
+                _ => false,
+            };
+            if pos == 5 || pos < next || !std_type {
+                spec_ok = false;
+            }
+            if pos < 5 && pos >= next {
+                next = pos + 1;
+            }
+            members.push(Member { name, kind });
+            k += 1;
+        }
+        unsafe {
+            MEMBERS_PTR = members.as_ptr();
+            MEMBERS_LEN = N;
+        }
+        let blob = TypedDataBlob {
+            types: Types(HashMap::default()),
+            primary_type: String::new(),
+            domain: JsonObject::new(),
+            message: JsonObject::new(),
+        };
+        let res = blob.verify_domain_type();
+        assert!(unsafe { ASKED == 1 && ASKED_DOMAIN }, "domain: the type checked is the one named EIP712Domain");
+        assert!(res.is_ok() == spec_ok, "domain: accepted iff a non-empty, order-preserving, duplicate-free selection of the five standard fields with their standard types");
+        kani::cover!(res.is_ok() == (N >= 1 && N <= 5));
+        kani::cover!(res.is_err());
+        core::mem::forget(res);
+        core::mem::forget(blob);
+        core::mem::forget(members);
+    }
+    macro_rules! domain {
+        ($($name:ident => $n:expr;)*) => {$(
+            #[kani::proof]
+            #[kani::unwind(19)]
+            #[kani::stub(Types::type_definition, type_definition_contract)]
+            #[kani::stub(std::hash::RandomState::new, crate::verif_common::fixed_random_state)]
+            #[kani::stub(alloc::fmt::format, crate::verif_common::no_format)]
+            fn $name() { domain_at::<$n>() }
+        )*};
+    }
+    domain! {
+        c20_domain_members_0 => 0;
+        c20_domain_members_1 => 1;
+        c20_domain_members_2 => 2;
+        c20_domain_members_3 => 3;
+        c20_domain_members_4 => 4;
+        c20_domain_members_5 => 5;
+        c20_domain_members_6 => 6;
+    }
+}
